@@ -24,7 +24,7 @@ def xs_increasing(rng, n, kind=None):
 
 def curve(rng, n, family=None):
     """performance curve: n >= 2 points, finite, strictly increasing x, y >= 0.  Returns (family, [[x,y],...])"""
-    fams = ['grid', 'grid', 'collinear', 'collinear', 'convex', 'convex', 'uniform', 'scaled', 'plateau', 'zigzag', 'elbow']
+    fams = ['grid', 'grid', 'collinear', 'collinear', 'convex', 'convex', 'uniform', 'scaled', 'plateau', 'zigzag', 'elbow', 'offset']
     family = family or rng.choice(fams)
     if family == 'grid':
         xs = xs_increasing(rng, n, rng.choice(['unit', 'int']))
@@ -58,6 +58,17 @@ def curve(rng, n, family=None):
         sx = 10.0 ** rng.choice([-8, 0, 0, 8])
         xs = [x * sx for x in xs_increasing(rng, n, 'int')]
         ys = [rng.uniform(0, 10) * s for _ in range(n)]
+    elif family == 'offset':
+        # ordinary shapes carried by a large additive offset in x and/or y (time-stamps, byte addresses): a tolerance comparison
+        # (isclose / allclose, relative 1e-5) treats distinct neighbouring points as equal there, an exact one does not
+        # (added after the seeded changes C02-r2m3 / C05-r2m2 / C17-m1)
+        base = curve(rng, n, rng.choice(['grid', 'collinear', 'convex', 'zigzag', 'elbow']))[1]
+        ox = rng.choice([0.0, 1.0e5, 4.0e6, 1.7e9, 2.0 ** 40])
+        oy = rng.choice([0.0, 0.0, 2.0e6, 1.0e9])
+        if ox == 0.0 and oy == 0.0:
+            ox = 1.7e9
+        xs = [p[0] + ox for p in base]
+        ys = [p[1] + oy for p in base]
     elif family == 'plateau':
         xs = xs_increasing(rng, n, rng.choice(['unit', 'int']))
         ys = []
